@@ -206,22 +206,33 @@ func Harness_C16_InvocationHandling() {
 	rt.got = nil
 	details := wamp.Dict{}
 	interrupt := false
-	switch vChoice("scenario", 4) {
+	hugeTimeout := false
+	switch vChoice("scenario", 5) {
 	case 0: // plain invocation
 	case 1: // invocation then INTERRUPT
 		interrupt = true
 	case 2: // callee-side timeout in the details
 		details["timeout"] = int64(50)
 	case 3: // the same invocation id delivered twice
+	case 4: // a forwarded timeout of centuries (any value whose conversion to nanoseconds overflows)
+		t := vInt64("huge.timeout.ms")
+		vAssume(t > 9223372036854)
+		details["timeout"] = t
+		hugeTimeout = true
 	}
 	sc := 0
 	_ = sc
 	rt.send(&wamp.Invocation{Request: 5, Registration: regID, Details: details, Arguments: wamp.List{1}})
-	if details["timeout"] == nil && !interrupt && block {
+	if (details["timeout"] == nil || hugeTimeout) && !interrupt && block {
 		// nothing will ever cancel this handler: interrupt it so the scenario ends
 		interrupt = true
 	}
 	vQuiesce()
+	if hugeTimeout && block {
+		vAdvance(int64(50) * 1000000)
+		vQuiesce()
+		vAssert("handler-not-cancelled-before-its-timeout", !sawCancel)
+	}
 	dup := vChoice("duplicate", 2) == 1
 	if dup {
 		rt.send(&wamp.Invocation{Request: 5, Registration: regID, Details: wamp.Dict{}, Arguments: wamp.List{1}})
